@@ -1333,3 +1333,62 @@ M('C05-face-player-read-by-truth', 'C05', FACE,
   "            if not is_entity:\n", "            if not self.entity_id:\n", rule='R05.9r')
 M('C05-twin-face-player-read-by-none', 'C05', FACE,
   "            if not is_entity:\n", "            if self.entity_id is None:\n", expect='silent')
+
+# wave 12: R12.9 (nothing is sent after a failed serialisation)
+M('C12-write-flushes-in-finally', 'C12', PACKET,
+  "        VarInt.send(self.id, packet_buffer)\n        # write every individual field\n        self.write_fields(packet_buffer)\n        self._write_buffer(socket, packet_buffer, compression_threshold)\n",
+  "        try:\n            VarInt.send(self.id, packet_buffer)\n            # write every individual field\n            self.write_fields(packet_buffer)\n        finally:\n            self._write_buffer(socket, packet_buffer, compression_threshold)\n",
+  rule='R12.9')
+M('C12-twin-write-in-try-else', 'C12', PACKET,
+  "        VarInt.send(self.id, packet_buffer)\n        # write every individual field\n        self.write_fields(packet_buffer)\n        self._write_buffer(socket, packet_buffer, compression_threshold)\n",
+  "        try:\n            VarInt.send(self.id, packet_buffer)\n            # write every individual field\n            self.write_fields(packet_buffer)\n        except Exception:\n            raise\n        else:\n            self._write_buffer(socket, packet_buffer, compression_threshold)\n",
+  expect='silent')
+
+# wave 12: R14.1d (a decoder's exception is not taken inside read_packet)
+_RP_OLD = ("            if packet_id in self.clientbound_packets:\n"
+           "                packet = self.clientbound_packets[packet_id]()\n"
+           "                packet.context = self.connection.context\n"
+           "                packet.read(packet_data)\n"
+           "            else:\n"
+           "                packet = packets.Packet()\n"
+           "                packet.context = self.connection.context\n"
+           "                packet.id = packet_id\n")
+M('C14-decoder-keyerror-swallowed', 'C14', CONN, _RP_OLD,
+  "            try:\n"
+  "                packet = self.clientbound_packets[packet_id]()\n"
+  "                packet.context = self.connection.context\n"
+  "                packet.read(packet_data)\n"
+  "            except KeyError:\n"
+  "                packet = packets.Packet()\n"
+  "                packet.context = self.connection.context\n"
+  "                packet.id = packet_id\n", rule='R14.1d')
+M('C14-twin-lookup-eafp', 'C14', CONN, _RP_OLD,
+  "            try:\n"
+  "                packet = self.clientbound_packets[packet_id]()\n"
+  "            except KeyError:\n"
+  "                packet = packets.Packet()\n"
+  "                packet.context = self.connection.context\n"
+  "                packet.id = packet_id\n"
+  "            else:\n"
+  "                packet.context = self.connection.context\n"
+  "                packet.read(packet_data)\n", expect='silent')
+M('C11-twin-lookup-eafp', 'C11', CONN, _RP_OLD,
+  "            try:\n"
+  "                packet = self.clientbound_packets[packet_id]()\n"
+  "            except KeyError:\n"
+  "                packet = packets.Packet()\n"
+  "                packet.context = self.connection.context\n"
+  "                packet.id = packet_id\n"
+  "            else:\n"
+  "                packet.context = self.connection.context\n"
+  "                packet.read(packet_data)\n", expect='silent')
+
+# wave 12: R19.4 (the reply's text is never a format string)
+M('C19-reply-text-as-format', 'C19', AUTH,
+  "        message = \"[{status_code}] Malformed error message: '{response_text}'\"\n        message = message.format(status_code=str(res.status_code),\n                                 response_text=res.text)\n",
+  "        message = (\"[%s] Malformed error message: '\" + res.text + \"'\") \\\n            % str(res.status_code)\n",
+  rule='R19.4')
+M('C19-twin-malformed-percent-format', 'C19', AUTH,
+  "        message = \"[{status_code}] Malformed error message: '{response_text}'\"\n        message = message.format(status_code=str(res.status_code),\n                                 response_text=res.text)\n",
+  "        message = \"[%s] Malformed error message: '%s'\" % (\n            str(res.status_code), res.text)\n",
+  expect='silent')
